@@ -5,6 +5,8 @@ from ..astutil import (U, dotted, get_class, methods, get_method, walk_local, is
                        decorator_names, call_name, all_functions, short)
 from ..engmodel import EngineModel, ENGINE, SESSION, SERVER, POLICY, CRYPTO
 from ..source import AnalysisError
+from ..cfg import CFG
+from ..dataflow import ReachingDefs
 
 EXPLANATION = (
     "Static lock-discipline analysis of KmipEngine: transitive field effect sets over the intra-class call graph; "
@@ -103,6 +105,62 @@ def check_synchronize(ctx, m):
     return lockattr
 
 
+
+def shared_session_fields(cls):
+    """fields of KmipSession that hold what the constructor was handed, except the connection (one per session)"""
+    init = next((f for f in cls.body if isinstance(f, ast.FunctionDef) and f.name == '__init__'), None)
+    out = set()
+    if init is None:
+        return out
+    ps = {a.arg for a in init.args.args[1:]}
+    for n in walk_local(init):
+        if isinstance(n, ast.Assign) and len(n.targets) == 1 and is_self_attr(n.targets[0]):
+            used = {x.id for x in ast.walk(n.value) if isinstance(x, ast.Name) and x.id in ps}
+            if used and not any('connection' in u for u in used) and not any(isinstance(x, ast.Call) for x in ast.walk(n.value)):
+                out.add(n.targets[0].attr)
+    return out
+
+
+def derives_from_fields(rd, node, expr, fields, depth=0, seen=None):
+    """the session field (among `fields`) the value of expr is taken out of - through attribute access, subscripts, iteration, unpacking, .get() - else None"""
+    seen = seen if seen is not None else set()
+    if depth > 8:
+        return None
+    if is_self_attr(expr) and expr.attr in fields:
+        return expr.attr
+    if isinstance(expr, (ast.Attribute, ast.Subscript, ast.Starred)):
+        return derives_from_fields(rd, node, expr.value, fields, depth + 1, seen)
+    if isinstance(expr, ast.Call) and isinstance(expr.func, ast.Attribute) and expr.func.attr in ('get', 'items', 'values', 'keys', 'pop', 'setdefault', '__getitem__'):
+        return derives_from_fields(rd, node, expr.func.value, fields, depth + 1, seen)
+    if isinstance(expr, ast.Call) and call_name(expr) in ('list', 'tuple', 'iter', 'enumerate', 'reversed', 'sorted', 'dict') and expr.args:
+        if call_name(expr) in ('list', 'tuple', 'sorted', 'dict'):
+            # a copy of the container - its elements are still the shared ones
+            pass
+        return derives_from_fields(rd, node, expr.args[0], fields, depth + 1, seen)
+    if isinstance(expr, (ast.Tuple, ast.List)):
+        for e in expr.elts:
+            r = derives_from_fields(rd, node, e, fields, depth + 1, seen)
+            if r:
+                return r
+        return None
+    if isinstance(expr, ast.Name):
+        for var, val, dn in rd.reaching(node, expr.id):
+            key = (expr.id, dn.id if dn is not None else None)
+            if key in seen:
+                continue
+            seen.add(key)
+            if isinstance(val, ast.AST) and dn is not None:
+                r = derives_from_fields(rd, dn, val, fields, depth + 1, seen)
+            elif isinstance(val, tuple) and val[0] in ('iter', 'unpack', 'with') and dn is not None and isinstance(val[1], ast.AST):
+                r = derives_from_fields(rd, dn, val[1], fields, depth + 1, seen)
+            elif isinstance(val, tuple) and val[0] == 'unpack' and dn is not None and isinstance(val[1], tuple) and len(val[1]) > 1 and isinstance(val[1][1], ast.AST):
+                r = derives_from_fields(rd, dn, val[1][1], fields, depth + 1, seen)
+            else:
+                r = None
+            if r:
+                return r
+    return None
+
 def run(ctx):
     src = ctx.src
     m = EngineModel(src)
@@ -198,6 +256,29 @@ def run(ctx):
                     b = n.func.value
                     if isinstance(b, ast.Name) and b.id not in localnames and b.id in modnames and b.id not in classnames:
                         bad.append('mutating call on module-level %s.%s' % (b.id, n.func.attr))
+            if rel == SESSION and cls is not None and cls.name == 'KmipSession' and fn.name != '__init__':
+                # structures the session was handed at construction (the engine, the authentication settings) are shared by every session thread:
+                # an item store / mutating call on something taken out of them is a write to shared state outside the engine lock
+                shared = shared_session_fields(cls)
+                sg_ = None
+                for n in walk_local(fn):
+                    base = None
+                    if isinstance(n, ast.Subscript) and isinstance(n.ctx, (ast.Store, ast.Del)):
+                        base, what = n.value, 'item store on'
+                    elif isinstance(n, ast.Call) and isinstance(n.func, ast.Attribute) and n.func.attr in MUTATORS:
+                        base, what = n.func.value, 'mutating call %s on' % n.func.attr
+                    elif isinstance(n, ast.Attribute) and isinstance(n.ctx, (ast.Store, ast.Del)) and isinstance(n.value, ast.Name) and n.value.id != 'self':
+                        base, what = n.value, 'field store on'
+                    if base is None:
+                        continue
+                    if sg_ is None:
+                        sg_ = CFG(fn)
+                        srd_ = ReachingDefs(sg_)
+                    from ..dataflow import node_of_expr as _noe
+                    nd_ = _noe(sg_, n)
+                    src_field = derives_from_fields(srd_, nd_, base, shared) if nd_ is not None else None
+                    if src_field:
+                        bad.append('%s %s, which comes out of self.%s (one object for all sessions)' % (what, U(base), src_field))
             if bad:
                 for b in sorted(set(bad)):
                     ctx.fail('C10.R3', '%s|%s' % (q, b), site, 'shared mutable state outside the lock: %s' % b)
